@@ -860,8 +860,15 @@ def dump_one(f: TextIO, data: IOData):
 
     f.write("[GTO]\n")
     last_icenter = -1
-    # The shells must be sorted by center.
-    for shell in sorted(obasis.shells, key=(lambda s: s.icenter)):
+    # The shells must be sorted by center. The rows of the orbital coefficients are
+    # reordered accordingly.
+    order = sorted(range(len(obasis.shells)), key=(lambda ishell: obasis.shells[ishell].icenter))
+    offsets = np.cumsum([0] + [shell.nbasis for shell in obasis.shells])
+    row_order = np.concatenate(
+        [np.arange(offsets[ishell], offsets[ishell + 1]) for ishell in order]
+    ).astype(int)
+    obasis = attrs.evolve(obasis, shells=[obasis.shells[ishell] for ishell in order])
+    for shell in obasis.shells:
         if shell.icenter != last_icenter:
             if last_icenter != -1:
                 f.write("\n")
@@ -877,6 +884,7 @@ def dump_one(f: TextIO, data: IOData):
 
     # Get the permutation to convert the orbital coefficients to Molden conventions.
     permutation, signs = convert_conventions(obasis, CONVENTIONS)
+    permutation = row_order[permutation]
 
     # Print the mean-field orbitals
     if data.mo.kind == "unrestricted":
